@@ -417,7 +417,8 @@ def ref_entry(fn) -> dict:
     return {"locals": names, "sites": sites, "digest": digest(fn), "comps": [names_ for _, names_ in comp_sites(fn)],
             "quants": quantifier_sites(fn), "params_read": params_read(fn), "calls": call_shapes(fn), "call_args": call_args(fn), "stmts": stmt_sequence(fn),
             "params": [x.arg for x in fn.args.posonlyargs + fn.args.args + fn.args.kwonlyargs], "src": _safe_unparse(fn),
-            "asserts": sorted({_safe_unparse(x.test) for x in ast.walk(fn) if isinstance(x, ast.Assert)})}
+            "asserts": sorted({_safe_unparse(x.test) for x in ast.walk(fn) if isinstance(x, ast.Assert)}),
+            "n_asserts": sum(1 for x in ast.walk(fn) if isinstance(x, ast.Assert))}
 
 
 def call_args(fn) -> list:
@@ -895,12 +896,15 @@ def drop_new_assertions(fn, ref) -> int:
     decided here.)"""
     known = set(ref.get("asserts", []))
     n = 0
+    # only ADDITIONAL assertions are taken out: an existing assertion whose test was edited stays visible to the rules
+    extra = sum(1 for x in ast.walk(fn) if isinstance(x, ast.Assert)) - int(ref.get("n_asserts", 0))
     for block in _blocks(fn):
         keep = []
         for st in block:
             drop = False
-            if isinstance(st, ast.Assert) and _safe_unparse(st.test) not in known:
+            if isinstance(st, ast.Assert) and _safe_unparse(st.test) not in known and extra > 0:
                 drop = True
+                extra -= 1
             elif isinstance(st, ast.Expr) and isinstance(st.value, ast.Call):
                 f = _safe_unparse(st.value.func)
                 if (f.startswith("logger.") or f.startswith("logging.")) and f not in ref.get("src", ""):
